@@ -575,7 +575,8 @@ func c20Cases(tier string) ([]c20Case, []c20RPC, [][]c20Mut) {
 				tw := tw
 				ms = append(ms, c20Mut{Desc: fmt.Sprintf("%s.requests=one account twice (%s)", r.Name, tw.desc), Set: func(m protoreflect.Message) {
 					g := m.Interface().(*pb.SignBeaconAttestationsRequest)
-					tmpl := g.GetRequests()[0]
+					// (The template comes from a fresh default message: another departure may have emptied this one's list.)
+					tmpl := r.Default(1).(*pb.SignBeaconAttestationsRequest).GetRequests()[0]
 					g.Requests = nil
 					for _, id := range tw.ids {
 						q := proto.Clone(tmpl).(*pb.SignBeaconAttestationRequest)
@@ -592,7 +593,7 @@ func c20Cases(tier string) ([]c20Case, []c20RPC, [][]c20Mut) {
 				n := n
 				ms = append(ms, c20Mut{Desc: fmt.Sprintf("%s.requests=%d well-formed entries", r.Name, n), Set: func(m protoreflect.Message) {
 					g := m.Interface().(*pb.SignBeaconAttestationsRequest)
-					tmpl := g.GetRequests()[0]
+					tmpl := r.Default(1).(*pb.SignBeaconAttestationsRequest).GetRequests()[0]
 					g.Requests = nil
 					for i := 0; i < n; i++ {
 						q := proto.Clone(tmpl).(*pb.SignBeaconAttestationRequest)
@@ -946,6 +947,24 @@ func C20(tier string) int {
 			if i := strings.Index(tail, marker); i >= 0 {
 				tail = tail[i:]
 				break
+			}
+		}
+		// A panic whose innermost frame is the harness's own (a case that could not even be built) is the harness's
+		// problem, never the instance's.
+		if i := strings.Index(tail, "[running]:\n"); i >= 0 && problem == "" {
+			first := strings.TrimSpace(strings.SplitN(tail[i+len("[running]:\n"):], "\n", 2)[0])
+			if strings.HasPrefix(first, "panic(") {
+				rest := strings.Split(tail[i+len("[running]:\n"):], "\n")
+				for k := 2; k < len(rest); k += 2 {
+					if f := strings.TrimSpace(rest[k]); !strings.HasPrefix(f, "runtime.") && !strings.HasPrefix(f, "panic(") {
+						first = f
+						break
+					}
+				}
+			}
+			if strings.HasPrefix(first, "verif/") || strings.HasPrefix(first, "main.") {
+				run.HarnessErr = fmt.Errorf("the worker panicked in the harness's own code while building or sending case %q: %s", cases[last].Label, strings.ReplaceAll(tail[:min(len(tail), 600)], "\n", " | "))
+				return run.Finish()
 			}
 		}
 		if len(tail) > 500 {
